@@ -109,7 +109,8 @@ func VerifC25JSONKey() {
 	}
 	line := jsonLineOf([]physical.SchemaField{{Name: k, Type: octosql.Int}}, []octosql.Value{octosql.NewInt(7)})[0]
 	zzverif.Reach("written")
-	zzverif.Known("C25-json-go-quote", goQuoteNotJSON(k))
+	// (column names still go through fastjson's escapeString after the repair of the values)
+	zzverif.Known("C25-json-key-go-quote", goQuoteNotJSON(k))
 	n, ok := readJSONLine(line)
 	zzverif.Assert(ok, "line-is-valid-json")
 	zzverif.Assert(n.kind == jObject && len(n.keys) == 1, "object-with-one-key")
